@@ -7,6 +7,8 @@ REG = dict(
         "of the black box scipy ndtri (normal regime of ppf only) is a hypothesis",
         "ppf reflection is proved under `NoTie` (no bisection midpoint has cdf(mid) = q exactly); at exact float ties the "
         "code is NOT mirror-symmetric (known finding C09-noisy-ppf-reflection-exact-bisection-tie); decisions within 1e-13 of a tie are rounding and are skipped",
+        "sample: the theorems are about the model's functions of (u, z); that the code's sample IS that function of the primitives "
+        "drawn from the seeded generator is compared bitwise in C13, and same-seed pairs D / D0 are compared here through D0.cdf",
         "the integrated average curve is related at every refinement level i; the stopping index is decided in floating "
         "point by the code",
         "oracle used to attribute a deviating integrated curve: adaptive Gauss-Legendre quadrature of the class's own cdf; the "
@@ -27,7 +29,11 @@ TEXT = dict(
           "(12 theorems). Noisy class (model Opda.Noisy over ANY ordered field and ANY transcendental record F, i.e. any "
           "partial-moment machinery): loc/scale identical and point negated under reflection, all three invariant under the "
           "affine map; cdf, pdf in every regime; ppf (30-step bisection: mirror image unless an exact tie, affine image always) "
-          "and the quantile curve (11 theorems). Integrated average curve (loop model Opda.TrapLoop = composite trapezoid sums, "
+          "and the quantile curve (11 theorems). sample (model Opda.Sample of both sample methods as functions of the generator's "
+          "primitives, at R, every real u, z): SAME SEED location-scale — D.sample(u) = a+(b-a) D0.sample(u), and "
+          "D.sample(u,z) = a+(b-a) D0.sample(u,z) with o = s(b-a); reflection — the mirrored instance fed with the complementary "
+          "uniform 1-u and the negated normal -z returns minus the draw; with the same uniform it does NOT (counterexample theorem), so "
+          "for sample the reflection is an identity of laws, not of equal-seed draws (6 theorems). Integrated average curve (loop model Opda.TrapLoop = composite trapezoid sums, "
           "every refinement level): mirror image WITH the 1[y>0] term; location-scale equivariant for the integrand without "
           "it; for the code's integrand only when 0 is outside [a-6o,b+6o] (`_partial`; the complement is finding F4). "
           "Correspondence: paired evaluations of the real code on mirrored / rescaled instances at exactly the property's "
